@@ -22,7 +22,7 @@ def ctor_objects(log, layer):
             inside = True
         elif k == "ctor<" and e[2] == layer:
             break
-        elif inside and k == "locknew" and e[2].startswith("L"):
+        elif inside and k == "locknew" and e[2].startswith("L") and (len(e) < 4 or e[3] != "ShutdownHelper"):
             locks.append(e[2])
         elif inside and k == "evnew":
             evs.append(e[2])
